@@ -18,7 +18,6 @@ import (
 	"google.golang.org/grpc/status"
 	"google.golang.org/protobuf/types/known/emptypb"
 
-	"go.opentelemetry.io/collector/component/componenttest"
 	"go.opentelemetry.io/collector/config/configgrpc"
 	"go.opentelemetry.io/collector/config/confighttp"
 	"go.opentelemetry.io/collector/config/configopaque"
@@ -63,6 +62,23 @@ func sortedKeys(m map[string]configopaque.String) []string {
 	}
 	sort.Strings(ks)
 	return ks
+}
+
+// transportOwned: header names that belong to the transport, not to the
+// application: HTTP connection-specific / hop-by-hop fields (RFC 9110 7.6.1,
+// RFC 9113 8.2.2), Host (it becomes the request target / :authority),
+// Content-Type/User-Agent/grpc-* which gRPC reserves for itself.  What arrives
+// under such a name is the transport's business; nothing is asserted for them.
+func transportOwned(name string, grpcWire bool) bool {
+	n := strings.ToLower(name)
+	switch n {
+	case "host", "connection", "te", "transfer-encoding", "upgrade", "keep-alive", "proxy-connection", "content-length", "trailer":
+		return true
+	}
+	if grpcWire {
+		return n == "content-type" || n == "user-agent" || strings.HasPrefix(n, "grpc-") || strings.HasPrefix(n, ":")
+	}
+	return false
 }
 
 // ---- recording peers ----
@@ -131,7 +147,7 @@ func httpTrim(s string) string { return strings.Trim(s, " \t") }
 func checkHTTPReceived(variant string, got http.Header, headers map[string]configopaque.String, dv *[]deliv) {
 	delivChecked["http-request/"+variant]++
 	for _, k := range sortedKeys(headers) {
-		if strings.EqualFold(k, "Host") {
+		if transportOwned(k, false) {
 			continue
 		}
 		want := httpTrim(string(headers[k]))
@@ -208,6 +224,11 @@ func checkGRPCReceived(where, variant string, got metadata.MD, headers map[strin
 	keys := sortedKeys(headers)
 	delivChecked["grpc/"+strings.SplitN(where, ",", 2)[0]+"/"+variant]++
 	for i, k := range keys {
+		if strings.HasPrefix(where, "on the wire") || strings.HasPrefix(where, "otlpexporter") {
+			if transportOwned(k, true) {
+				continue
+			}
+		}
 		want := string(headers[k])
 		if variant == "preset" && i == 0 {
 			want = callerValue // IfAbsent: the caller's own value stays
@@ -273,7 +294,7 @@ func deliverGRPC(c *configgrpc.ClientConfig, dv *[]deliv) error {
 		seen = md.Copy()
 		return nil, errObserved
 	}
-	conn, err := c.ToClientConn(context.Background(), nopHost, componenttest.NewNopTelemetrySettings(),
+	conn, err := c.ToClientConn(context.Background(), nopHost, obsTel(),
 		configgrpc.WithGrpcDialOption(grpc.WithChainUnaryInterceptor(obsU)), configgrpc.WithGrpcDialOption(grpc.WithChainStreamInterceptor(obsS)))
 	if err != nil {
 		return err
@@ -300,7 +321,7 @@ func deliverGRPC(c *configgrpc.ClientConfig, dv *[]deliv) error {
 	oldEP, oldIns := c.Endpoint, c.TLSSetting.Insecure
 	c.Endpoint, c.TLSSetting.Insecure = wireServer(), true
 	defer func() { c.Endpoint, c.TLSSetting.Insecure = oldEP, oldIns }()
-	wc, err := c.ToClientConn(context.Background(), nopHost, componenttest.NewNopTelemetrySettings())
+	wc, err := c.ToClientConn(context.Background(), nopHost, obsTel())
 	if err != nil {
 		return errors.Join(cerr, err)
 	}
